@@ -207,6 +207,11 @@ def cases():
             yield dict(name="func-sees-later-global", d=d, u=d, expect=False, src=render({d: ["func h() {", "\tprint(late)", "}", "late := 1"]}))
             yield dict(name="func-dup-param", d=d, u=d, expect=False, src=render({d: ["func h(a int, a int) {", "}"]}))
             yield dict(name="func-param-shadows-global", d=d, u=d, expect=False, src=render({d: ["func h(g0 int) {", "}"]}))
+            # the same parameter name twice, whatever the two types are, and wherever in the list
+            for k, ps in enumerate(("a int, a string", "a string, a []string", "a int, b int, a bool", "a []int, b string, a int",
+                                    "b int, a string, a string", "a int, b int, c int, b []int")):
+                yield dict(name=f"func-dup-param-types-{k}", d=d, u=d, expect=False, src=render({d: [f"func h({ps}) {{", "}"]}))
+            yield dict(name="func-distinct-params", d=d, u=d, expect=True, src=render({d: ["func h(a int, b string, c []int, e bool) {", "}"]}))
             yield dict(name="func-falls-off-end", d=d, u=d, expect=False, src=render({d: ["func h(a int) int {", "\tif a > 1 {", "\t\treturn 1", "\t}", "}"]}))
             yield dict(name="func-empty-body-with-result", d=d, u=d, expect=False, src=render({d: ["func h() int {", "}"]}))
             yield dict(name="func-comment-body-with-result", d=d, u=d, expect=False, src=render({d: ["func h() int {", "\t// nothing", "}"]}))
